@@ -121,7 +121,7 @@ class Oracles:
             func = [plain, lambda *a, **k: calls.append("called"), functools.partial(plain, 1), len, wrapped][which]  # type: ignore[list-item]
             causes.add("NotCoroutineFunction")
         if "nc" in bad and rm.kind != "apply":
-            rm.spec["nc"] = -(op.get("nc_val", 0) % 3)
+            rm.spec["nc"] = [0, -1, -2, 0.5][op.get("nc_val", 0) % 4]      # anything below 1 is no number of concurrent tasks
             causes.add("ValueError")
         before = set(asyncio.all_tasks(w.loop))
         snap = self.snapshot(pm)
